@@ -1,11 +1,11 @@
-import QuiverModel.Core.Heap.Exec
-import QuiverModel.Lemmas.Heap.Reach
+import QuiverModel.Core.Heap.Unfixed
+import QuiverModel.Lemmas.Heap.Select
 /-
 C06 — Binary heap accounting is exact: no leak, no premature free, no aliasing damage.
 
 Model: M-Heap (`Core/Heap/Basic.lean`: state, `retain`/`release`, choke points, allocation,
-reclamation, transfer by copy) + its instruction layer (`Core/Heap/Instr.lean`, `Exec.lean`: the
-value-movement pattern of every handler). Invariant: `QM.Heap.Inv` (`Lemmas/Heap/Inv.lean`), whose
+reclamation, transfer by copy) + its instruction layer (`Core/Heap/Instr.lean`, `Exec.lean`,
+`Select.lean`: the value-movement pattern of every handler, including the select machinery). Invariant: `QM.Heap.Inv` (`Lemmas/Heap/Inv.lean`), whose
 clause `acct` is
 
     Acct s : ∀ i, refcounts[i] = countRefs (roots s) i + floating s i
@@ -136,6 +136,32 @@ theorem acct_step_stepInstr (env : Env) (henv : EnvOk env) {s : State} (h : Inv 
     | ok => exact ⟨a, b, c⟩
     | act x => exact ⟨a, b, c⟩
     | wait => exact ⟨a, b, c⟩
+
+/-! ## `acct_step`: the select machinery -/
+
+/-- **acct_step** for `Select` (`handle_select` with everything below it: continuation, initialise,
+source scan, filter call, verdict, completion): for every clock, compatibility table, set of failed
+targets and builtin behaviour -/
+theorem acct_step_select (env : SelEnv) (henv : ∀ id r, env.run id = some r → BuiltinOk r)
+    {s : State} (h : Inv s) (pid : Nat) :
+    Inv (handleSelect env s pid).1 ∧ Stable s (handleSelect env s pid).1
+      ∧ (handleSelect env s pid).1.transit = s.transit := by
+  have g := good_handleSelect env henv h pid
+  exact ⟨g.inv, g.stable, g.transit⟩
+
+/-- the repaired `call_receive_function`: the message of an abandoned filter call is released -/
+theorem acct_step_callReceiveFunction (env : SelEnv) (henv : ∀ id r, env.run id = some r → BuiltinOk r)
+    {s : State} (h : Inv s) (pid receiveIdx msgIdx : Nat) {message source : Val}
+    (hm : Live s message) (hsrc : Live s source) (hsel : HasSel s pid) :
+    Inv (callReceiveFunction env s pid receiveIdx msgIdx message source).1
+      ∧ (callReceiveFunction env s pid receiveIdx msgIdx message source).1.transit = s.transit := by
+  have g := good_callReceiveFunction env henv h pid receiveIdx msgIdx hm hsrc hsel.ne
+  exact ⟨g.inv, g.transit⟩
+
+theorem acct_step_completeSelect {s : State} (h : Inv s) (pid : Nat) {result : Val} (hr : Live s result) :
+    Inv (completeSelect s pid result).1 ∧ (completeSelect s pid result).1.transit = s.transit := by
+  have g := good_completeSelect h pid hr
+  exact ⟨g.inv, g.transit⟩
 
 /-! ## `acct_step`: notifications, process creation, REPL, end of slice -/
 
@@ -271,5 +297,127 @@ theorem reclaimed {s : State} (h : Inv s) (ht : s.transit = []) (hfresh : s.fres
       | inl hp => exact ppf_frees h i hp hz
       | inr hf => rw [hfresh] at hf; cases hf
   exact ⟨hfr, (inv_processPendingFree h).freedFree i hfr, pendingFree_processPendingFree h⟩
+
+/-! ## the theorems depend on the repairs: the code as it was breaks the property
+
+Each witness is a concrete state evaluated by the kernel (`decide`). -/
+
+section Witnesses
+
+/-- F7 (27c635d). Process 1 is in a select; the lower-priority filter (receive index 1) is running on
+message `m0` (slot 0), which `select_state.receiving` holds; `m1` (slot 1) has arrived for the
+higher-priority source. -/
+def exSelectState : SelectState :=
+  { frame := 0, instruction := 3, sources := [Val.func 7 [], Val.func 8 []], cursors := [0, 0], startTime := some 0, receiving := some (1, Val.heapBin 0) }
+
+def exSelectProc : Proc :=
+  { frames := [⟨0, 0, 0, 3⟩], mailbox := [Val.heapBin 0, Val.heapBin 1], selectState := some exSelectState }
+
+def exSelect : State :=
+  { heap := #[.owned [0x68], .owned [0x01, 0x02]], refcounts := #[2, 1], freed := #[false, false], procs := [(1, exSelectProc)] }
+
+example : ∀ i, i < 2 → exSelect.rc i = exSelect.countRefs i + exSelect.floating i := by decide
+
+/-- the old `call_receive_function` overwrites the slot: slot 0 stays counted twice with one path left -/
+theorem unfixed_callReceiveFunction_breaks_acct :
+    ¬ Acct (callReceiveFunctionUnfixed {} exSelect 1 0 1 (Val.heapBin 1) (Val.func 7 [])).1 := by
+  intro h; exact absurd (h 0) (by decide)
+
+example : (callReceiveFunctionUnfixed {} exSelect 1 0 1 (Val.heapBin 1) (Val.func 7 [])).1.rc 0 = 2 := by decide
+example : (callReceiveFunctionUnfixed {} exSelect 1 0 1 (Val.heapBin 1) (Val.func 7 [])).1.countRefs 0 = 1 := by decide
+
+/-- the repaired one releases the abandoned message -/
+example : ∀ i, i < 2 →
+    (callReceiveFunction {} exSelect 1 0 1 (Val.heapBin 1) (Val.func 7 [])).1.rc i
+      = (callReceiveFunction {} exSelect 1 0 1 (Val.heapBin 1) (Val.func 7 [])).1.countRefs i := by decide
+
+/-- F14 (795fca7). Process 1 still holds the first result of process 2 in `awaiting` (slot 0). -/
+def exAwait : State :=
+  { heap := #[.owned [1]], refcounts := #[1], freed := #[false],
+    procs := [(1, { awaiting := [(2, some (Val.heapBin 0))] })] }
+
+example : exAwait.rc 0 = exAwait.countRefs 0 + exAwait.floating 0 := by decide
+
+theorem unfixed_notifyResult_breaks_acct :
+    ¬ Acct (notifyResultUnfixed exAwait 1 2 (Val.heapBin 0) [[9]]).1 := by
+  intro h; exact absurd (h 0) (by decide)
+
+example : (notifyResult exAwait 1 2 (Val.heapBin 0) [[9]]).1.rc 0 = 0 := by decide
+example : (notifyResult exAwait 1 2 (Val.heapBin 0) [[9]]).1.pendingFree = [0] := by decide
+
+/-- F16 (bc74ad3). Process 1 has completed with a value (slot 0); overwriting its result with the
+error of a process it once awaited leaves slot 0 counted and unreachable. -/
+def exDone : State :=
+  { heap := #[.owned [1, 2]], refcounts := #[1], freed := #[false],
+    procs := [(1, { result := some (.ok (Val.heapBin 0)), awaiting := [(2, none)] })] }
+
+example : exDone.rc 0 = exDone.countRefs 0 + exDone.floating 0 := by decide
+
+theorem late_error_overwrite_breaks_acct : ¬ Acct (setError exDone 1) := by
+  intro h; exact absurd (h 0) (by decide)
+
+/-- F15 (fd2e22f). Two captures holding different binaries (slots 0 and 1 of the parent). -/
+def exParent : State :=
+  { heap := #[.owned [0x01, 0x02], .owned [0x03, 0x04]], refcounts := #[1, 1], freed := #[false, false],
+    procs := [(0, { locals := [Val.heapBin 0, Val.heapBin 1] })] }
+
+/-- the old transfer makes the second capture read the first capture's bytes … -/
+theorem unfixed_spawn_transfer_corrupts :
+    ((transferAllUnfixed exParent {} [Val.heapBin 0, Val.heapBin 1]).1.map
+        (readBins (transferAllUnfixed exParent {} [Val.heapBin 0, Val.heapBin 1]).2))
+      = some [[0x01, 0x02], [0x01, 0x02]] := by decide
+
+/-- … and strands the copies it allocated for nothing (4 slots for 2 binaries) -/
+example : (transferAllUnfixed exParent {} [Val.heapBin 0, Val.heapBin 1]).2.heap.size = 4 := by decide
+
+/-- the repaired transfer copies each binary once and every capture reads its own bytes (an
+instance of `transfer_copies`) -/
+example :
+    ((transferAll exParent {} [Val.heapBin 0, Val.heapBin 1]).1.map
+        (readBins (transferAll exParent {} [Val.heapBin 0, Val.heapBin 1]).2))
+      = some [[0x01, 0x02], [0x03, 0x04]] := by decide
+example : (transferAll exParent {} [Val.heapBin 0, Val.heapBin 1]).2.heap.size = 2 := by decide
+
+end Witnesses
+
+/-! ## the hypotheses are satisfiable: a non-trivial reachable state -/
+
+section Examples
+
+/-- process 0 spawned, a binary constant pushed, duplicated, stored, a tuple built, a field taken -/
+def exRun : State :=
+  let s := (spawnProcess State.init 0 (some 0) [] Val.nil [] false).1
+  let s := (exec {} s 0 (.constant 0 (some (.bin [1, 2])))).1
+  let s := (exec {} s 0 .duplicate).1
+  let s := (exec {} s 0 .store).1
+  let s := (exec {} s 0 (.constant 1 (some (.bin [3])))).1
+  let s := (exec {} s 0 (.tuple 2 (some 2))).1
+  let s := (exec {} s 0 .duplicate).1
+  (exec {} s 0 (.get 1)).1
+
+theorem exRun_inv : Inv exRun := by
+  have e : EnvOk {} := by intro id r hr; cases hr
+  have h0 := acct_step_spawnProcess acct_init 0 (some 0) [] Val.nil [] false rfl
+  have h1 := (acct_step_instr {} e h0 0 (.constant 0 (some (.bin [1, 2]))) trivial).1
+  have h2 := (acct_step_instr {} e h1 0 .duplicate trivial).1
+  have h3 := (acct_step_instr {} e h2 0 .store trivial).1
+  have h4 := (acct_step_instr {} e h3 0 (.constant 1 (some (.bin [3]))) trivial).1
+  have h5 := (acct_step_instr {} e h4 0 (.tuple 2 (some 2)) trivial).1
+  have h6 := (acct_step_instr {} e h5 0 .duplicate trivial).1
+  exact (acct_step_instr {} e h6 0 (.get 1) trivial).1
+
+/-- it is non-trivial: two slots, shared along several paths -/
+example : exRun.rc 0 = 3 ∧ exRun.rc 1 = 3 ∧ exRun.reachable.length = 6 ∧ exRun.transit.length = 0 := by decide +kernel
+/-- `positive_iff_reachable` applies to it -/
+theorem exRun_transit : exRun.transit = [] := by
+  have : exRun.transit.length = 0 := by decide +kernel
+  exact List.eq_nil_of_length_eq_zero this
+example : 0 < exRun.rc 1 ↔ 1 ∈ exRun.reachable := positive_iff_reachable exRun_inv exRun_transit 1
+/-- `reclaimed` in action: the result replaced by the repaired `notify_result` (slot 0) is in the
+reuse pool after the next `process_pending_free`, and the next allocation reuses it -/
+example : (processPendingFree (notifyResult exAwait 1 2 (Val.heapBin 0) [[9]]).1).free = [0] := by decide
+example : (allocate (processPendingFree (notifyResult exAwait 1 2 (Val.heapBin 0) [[9]]).1) (.owned [5])).1 = some 0 := by decide
+
+end Examples
 
 end C06
